@@ -319,6 +319,26 @@ func (c *Check) Run() {
 		}()
 	}
 	wg.Wait()
+	// optional audit (GOVC_VACUITY=1): which proved obligations have hypotheses that cannot hold at all
+	if os.Getenv("GOVC_VACUITY") != "" {
+		n := 0
+		for _, r := range c.Results {
+			o := r.Ob
+			if (r.Status != "proved" && r.Status != "bounded") || len(o.Hyps) == 0 {
+				continue
+			}
+			var body string
+			func() {
+				defer func() { recover() }()
+				body = (&Script{Asserts: append(append([]*Term{}, o.Common...), o.Hyps...)}).Render(allAxioms)
+			}()
+			if body != "" && !quickSat(body) {
+				n++
+				fmt.Fprintln(os.Stderr, "VACUOUS-HYPS", o.Name)
+			}
+		}
+		fmt.Fprintln(os.Stderr, "vacuity audit:", n, "obligations with unsatisfiable hypotheses")
+	}
 	// second pass: witness values for violated obligations (single-goal queries with get-value)
 	type wjob struct {
 		r    *ObResult
